@@ -43,8 +43,16 @@ Decisions / zones (rule 1):
   * Keywords "can be repeated" (docs): every order of repeated keywords must merge left to right; the
     current code fails when a keyword is repeated after an earlier repeat of another one -> known finding
     `repeated-keyword-after-earlier-repeat:merged-into-wrong-slot`.
+  * A dictionary written as aggregate keywords (`attrs:k=v` / `defaults:k=v`, rule 3 of the docs) is a list of
+    keywords of the tag, and "you can supply the same key multiple times, and these will be all joined together"
+    (quantifier: "repeated keywords, aggregate attrs:k=v and defaults:k=v forms, spreads"): a `prefix:k` given
+    two or three times - as a variable, a literal, or contributed by a `...spread` - makes entry k of that
+    dictionary the space-join of the values in template order (HtmlAttrs!DictParts); then attrs override
+    defaults entry by entry and plain keywords are appended.  Joining with None / True / False is the same
+    undetermined zone as appending them.  MC profile "aggrep" enumerates these, the random driver also
+    interleaves the aggregate keywords, `attrs=` / `defaults=` and the plain keywords in any order (rules 1, 3).
   * Names are lower-case (HTML attribute names are case-insensitive; html.parser lower-cases them);
-    repeated `attrs:k=` aggregates, dynamic "{{ }}" expressions and filters inside the tag are not generated
+    dynamic "{{ }}" expressions and filters inside the tag are not generated
     (docs do not define them for html_attrs); template string literals only without special characters
     (Django treats literals as safe).
   * Slot chains: marked-safe content -> 0 escapings; first escape_slots_content=True -> exactly 1; first
@@ -53,6 +61,11 @@ Decisions / zones (rule 1):
   * JS/CSS: content that terminates its own element must be refused or absent; content without any
     "<" must be emitted intact; look-alikes that do not terminate ("</scriptx", "< /script>") may be
     refused or emitted.  No "<!--" in generated JS (script-data escaped states are not modelled).
+    The admitted outcomes depend on the content alone (EndTagGuard: Histories): every component of the
+    bounded instance is rendered three times in one process, the random driver records histories of 1-3
+    renders of one class, possibly interleaved with a second class (other or identical content); EVERY
+    render is judged - a content refused at the first render may not be emitted by a later one.  Nothing
+    more is demanded of a history (e.g. "refused" then "absent" for a terminating content is admitted).
 """
 from __future__ import annotations
 
@@ -97,18 +110,31 @@ def _lit(v: Dict[str, str]) -> str:
 
 def materialize_attrs(case: Dict[str, Any]) -> Tuple[str, Dict[str, Any]]:
     """Abstract case -> ({% html_attrs %} template source, context).  Pure syntax: which of the
-    documented, equivalent writing forms is used is given by fa / fd / vias."""
+    documented, equivalent writing forms is used is given by fa / fd / vias and, for dictionaries written
+    as aggregate keywords, avias / dvias (how each prefix:key=value is given: variable, literal, inside a
+    ...spread) and order (how the aggregate keywords and the plain keywords are interleaved in the tag:
+    a sequence of "a" / "d" / "k", each taking the next entry of attrs / defaults / kws)."""
     ctx: Dict[str, Any] = {}
-    A = {e["n"]: _pyval(e["v"]) for e in case["attrs"]}
-    D = {e["n"]: _pyval(e["v"]) for e in case["defaults"]}
     fa, fd = case["fa"], case["fd"]
     pos: List[str] = []
-    first: List[str] = []
     last: List[str] = []
     sp0: Dict[str, Any] = {}
-    for form, name, d in (("fa", "attrs", A), ("fd", "defaults", D)):
+    # a token: (key, value record, via) - one keyword of the tag - or a ready-made string
+    streams: Dict[str, List[Any]] = {"a": [], "d": [], "k": []}
+    for form, name, st in (("fa", "attrs", "a"), ("fd", "defaults", "d")):
         f = case[form]
+        entries = case[name]
         var = "A" if name == "attrs" else "D"
+        if f == "agg":
+            avias = case.get(st + "vias") or ["var"] * len(entries)
+            if len(avias) != len(entries):
+                raise MachineryError("one via per aggregate entry")
+            for i, (e, via) in enumerate(zip(entries, avias)):
+                streams[st].append((f"{name}:{e['n']}", e["v"], via, f"{var}{i}"))
+            continue
+        d = {e["n"]: _pyval(e["v"]) for e in entries}
+        if len(d) != len(entries):
+            raise MachineryError("a repeated name needs the aggregate form")
         if f == "absent":
             if d:
                 raise MachineryError("entries for an absent dictionary")
@@ -120,14 +146,10 @@ def materialize_attrs(case: Dict[str, Any]) -> Tuple[str, Dict[str, Any]]:
             pos.append(var)
         elif f == "kw":
             ctx[var] = d
-            first.append(f"{name}={var}")
+            streams[st].append(f"{name}={var}")
         elif f == "kwlast":
             ctx[var] = d
             last.append(f"{name}={var}")
-        elif f == "agg":
-            for i, (k, v) in enumerate(d.items()):
-                ctx[f"{var}{i}"] = v
-                first.append(f"{name}:{k}={var}{i}")
         elif f == "spread":
             sp0[name] = d
         else:
@@ -138,25 +160,37 @@ def materialize_attrs(case: Dict[str, Any]) -> Tuple[str, Dict[str, Any]]:
     if sp0:
         ctx["SP0"] = sp0
         parts.append("...SP0")
-    parts += first
     vias = case.get("vias") or ["var"] * len(case["kws"])
+    for i, (e, via) in enumerate(zip(case["kws"], vias)):
+        streams["k"].append((e["n"], e["v"], via, f"V{i}"))
+    order = case.get("order") or ["a"] * len(streams["a"]) + ["d"] * len(streams["d"]) + ["k"] * len(streams["k"])
+    if sorted(order) != sorted(k for k, st in streams.items() for _ in st):
+        raise MachineryError(f"order {order} does not take every keyword exactly once")
+    nxt = {"a": 0, "d": 0, "k": 0}
     run: Optional[Dict[str, Any]] = None
     nsp = 0
-    for i, (e, via) in enumerate(zip(case["kws"], vias)):
+    for o in order:
+        tok = streams[o][nxt[o]]
+        nxt[o] += 1
+        if isinstance(tok, str):
+            run = None
+            parts.append(tok)
+            continue
+        key, v, via, var = tok
         if via == "spread":
-            if run is None or e["n"] in run:
+            if run is None or key in run:
                 nsp += 1
                 run = {}
                 ctx[f"SP{nsp}"] = run
                 parts.append(f"...SP{nsp}")
-            run[e["n"]] = _pyval(e["v"])
+            run[key] = _pyval(v)
             continue
         run = None
         if via == "lit":
-            parts.append(f"{e['n']}={_lit(e['v'])}")
+            parts.append(f"{key}={_lit(v)}")
         else:
-            ctx[f"V{i}"] = _pyval(e["v"])
-            parts.append(f"{e['n']}=V{i}")
+            ctx[var] = _pyval(v)
+            parts.append(f"{key}={var}")
     parts += last
     return "<div {% " + " ".join(parts) + " %}>", ctx
 
@@ -336,7 +370,8 @@ def settle_attrs(chk: Check, pending: List[Tuple]) -> None:
             continue
         m = re.search(r'"dev:([^"]+)"', why["clauses"])
         case = {"kind": "html_attrs", "origin": origin,
-                "case": {k: row[k] for k in ("defaults", "attrs", "kws", "vias", "fa", "fd") if k in row},
+                "case": {k: row[k] for k in ("defaults", "attrs", "kws", "vias", "fa", "fd", "avias", "dvias", "order")
+                         if k in row},
                 "template": obs.get("src")}
         chk.violation(case, {"expected_items": row["items"], "errors_admitted": row["err"],
                              "observed": {k: obs[k] for k in ("err", "attrs", "spill", "out")}, "tlc": why},
@@ -443,21 +478,25 @@ _guard_seq = [0]
 _DOC = "<html><head><title>t</title></head><body><p>hi</p></body></html>"
 
 
-def observe_guard(kind: str, s: str) -> Dict[str, Any]:
-    """Render a fresh component whose Component.js / Component.css is `s` as a document.
+def _guard_class(kind: str, s: str):
+    """A fresh component class whose Component.js / Component.css is `s`."""
+    from django_components import Component
+    if s.strip() != s or not s.startswith("M1"):
+        raise MachineryError("guard contents start with the marker M1 and carry no outer white space")
+    _guard_seq[0] += 1
+    return type(f"VfC13Guard{_guard_seq[0]}", (Component,), {"template": _DOC, kind: s})
+
+
+def _render_guard(cls, kind: str, s: str) -> Dict[str, Any]:
+    """Render the component as a document (once more, in this process).
     outcome: "refused" (exception), "absent" (rendered, content not in the output), "emitted" (the
     element with exactly this content is in the output), "altered" (marker present, text differs).
     rest: the output from just after the element's start tag (for the tokenizer of the specification)."""
-    from django_components import Component
-    _guard_seq[0] += 1
     tag = "script" if kind == "js" else "style"
-    cls = type(f"VfC13Guard{_guard_seq[0]}", (Component,), {"template": _DOC, kind: s})
     try:
         out = cls.render()
     except Exception as e:
         return {"outcome": "refused", "exc": type(e).__name__, "rest": ""}
-    if s.strip() != s or not s.startswith("M1"):
-        raise MachineryError("guard contents start with the marker M1 and carry no outer white space")
     start = f"<{tag}>"
     i = out.find(start + "M1")
     if i < 0:
@@ -466,20 +505,31 @@ def observe_guard(kind: str, s: str) -> Dict[str, Any]:
     return {"outcome": "emitted" if rest.startswith(s + f"</{tag}>") else "altered", "exc": "", "rest": rest}
 
 
-def judge_guard(chk: Check, row: Dict[str, Any], obs: Dict[str, Any], origin: str) -> None:
-    if obs["outcome"] in row["admitted"]:
+def observe_guard(kind: str, s: str, renders: int = 1) -> List[Dict[str, Any]]:
+    """The history of `renders` renders of ONE fresh component class with this JS / CSS in this process."""
+    cls = _guard_class(kind, s)
+    return [_render_guard(cls, kind, s) for _ in range(renders)]
+
+
+def judge_guard(chk: Check, row: Dict[str, Any], hist: List[Dict[str, Any]], origin: str) -> None:
+    """Every render of the history must have an outcome the specification admits for the content."""
+    for n, obs in enumerate(hist):
+        if obs["outcome"] in row["admitted"]:
+            continue
+        dev = row.get("dev") or {}
+        key = dev["key"] if dev.get("key") and obs["outcome"] == dev["outcome"] else None
+        chk.violation({"kind": "guard", "origin": origin, "component_attr": row["kind"], "content": row["s"],
+                       "renders": n + 1},
+                      {"admitted": row["admitted"], "observed": obs["outcome"], "exception": obs["exc"],
+                       "render": n + 1, "history": [o["outcome"] for o in hist[: n + 1]],
+                       "output_after_start_tag": obs["rest"][:300]}, key=key)
         return
-    dev = row.get("dev") or {}
-    key = dev["key"] if dev.get("key") and obs["outcome"] == dev["outcome"] else None
-    chk.violation({"kind": "guard", "origin": origin, "component_attr": row["kind"], "content": row["s"]},
-                  {"admitted": row["admitted"], "observed": obs["outcome"], "exception": obs["exc"],
-                   "output_after_start_tag": obs["rest"][:300]}, key=key)
 
 
 # ====================================================================== TLC: bounded instances
 _INV_A = ["LawOverride", "LawAppend", "CaseOK"]
 _INV_S = ["StepwiseIsRun", "Refines", "NeverTwice", "Export"]
-_INV_G = ["Agree", "Shape", "AdmittedNonEmpty", "Export"]
+_INV_G = ["Agree", "Shape", "AdmittedNonEmpty", "HistoryLaw", "Export"]
 
 
 def _write_cfg(path: Path, consts: Dict[str, Any], invariants: List[str], properties: List[str] = (),
@@ -508,7 +558,8 @@ def _instances(tier: str) -> List[Dict[str, Any]]:
         + attrs("attrs-values", Profile="values", MaxKw=2 if q else 3, MaxEntries=9, NNames=1)
         + attrs("attrs-repeat", Profile="repeat", MaxKw=5 if q else 6, MaxEntries=9, NNames=3)
         + attrs("attrs-names", Profile="names", MaxKw=1, MaxEntries=9, NNames=1)
-        + [dict(name="guard", module="MC_C13G", inv=_INV_G, consts=dict(MaskMode="few" if q else "all")),
+        + attrs("attrs-aggrep", Profile="aggrep", MaxKw=1, MaxEntries=3 if q else 4, NNames=2)
+        + [dict(name="guard", module="MC_C13G", inv=_INV_G, consts=dict(MaskMode="few" if q else "all", MaxRenders=3)),
            dict(name="slots", module="MC_C13S", inv=_INV_S, props=["CountMonotone"],
                 consts=dict(MaxHops=2 if q else 3))])
 
@@ -546,7 +597,7 @@ def _observe_row(arg: Tuple[str, Dict[str, Any]]) -> Dict[str, Any]:
         return observe_attrs(row)
     if name == "slots":
         return observe_slot(row["origin"], row["content"], row["hops"])
-    return observe_guard(row["kind"], row["s"])
+    return observe_guard(row["kind"], row["s"], row["renders"])
 
 
 def _observe_all(items: List[Tuple[str, Dict[str, Any]]], procs: int) -> List[Dict[str, Any]]:
@@ -565,8 +616,10 @@ def replay_exports(chk: Check, exports: List[Dict[str, Any]], procs: int = 6) ->
     for n, ((name, row), o) in enumerate(zip(items, obs)):
         if name.startswith("attrs"):
             nontrivial = bool(row["kws"]) or (bool(row["attrs"]) and bool(row["defaults"])) or \
-                any(it["cls"] != "exact" for it in row["items"])
-            chk.count(["a", row["defaults"], row["attrs"], row["kws"], row["vias"], row["fa"], row["fd"]], nontrivial)
+                any(it["cls"] != "exact" for it in row["items"]) or \
+                any(len({e["n"] for e in row[k]}) < len(row[k]) for k in ("attrs", "defaults"))
+            chk.count(["a", row["defaults"], row["attrs"], row["kws"], row["vias"], row["fa"], row["fd"],
+                       row.get("avias"), row.get("dvias")], nontrivial)
             judge_attrs(chk, pending, row, o, "mc:" + name, n)
         elif name == "slots":
             chk.count(["s", row["origin"], row["content"], row["hops"]], True)
@@ -654,14 +707,34 @@ def record_attrs_trace(rnd: random.Random, tid: int) -> Dict[str, Any]:
         via = rnd.choice(["var", "var", "spread", "lit" if lit_ok else "var"])
         kws_shape.append((n, via, v if via == "lit" else None))
 
-    def dict_names(form):
-        return [n for n in names if form != "agg" or n in _EXACT_KW]
-    agg_a = rnd.sample(dict_names("agg"), min(len(dict_names("agg")), rnd.randint(0, 3))) if fa == "agg" else None
-    agg_d = rnd.sample(dict_names("agg"), min(len(dict_names("agg")), rnd.randint(0, 3))) if fd == "agg" else None
+    def agg_shape():
+        """A dictionary written as aggregate keywords: (name, via, literal value or None) per keyword; in half
+        of the cases a prefix:name is given again once or twice (joined like any repeated keyword)."""
+        pool = [n for n in names if n in _EXACT_KW]
+        ns = rnd.sample(pool, min(len(pool), rnd.randint(0, 3)))
+        if ns and rnd.random() < 0.5:
+            for _ in range(rnd.randint(1, 2)):
+                ns.insert(rnd.randint(0, len(ns)), rnd.choice(ns))
+        shape = []
+        for n in ns:
+            v = _rand_value(rnd, ns.count(n) > 1, strict=2 if unrep else 0)
+            lit_ok = v["t"] in ("num", "true", "none") or (v["t"] == "str" and v["s"] and
+                                                           re.fullmatch(r"[A-Za-z0-9 _.:;#-]+", v["s"]) is not None)
+            via = rnd.choice(["var", "var", "spread", "lit" if lit_ok else "var"])
+            shape.append((n, via, v if via == "lit" else None))
+        return shape
+    agg_a = agg_shape() if fa == "agg" else None
+    agg_d = agg_shape() if fd == "agg" else None
     kw_used = {n for n, _, _ in kws_shape}
+    joined = {n for sh in (agg_a, agg_d) if sh for n, _, _ in sh if [m for m, _, _ in sh].count(n) > 1}
+    # the tag's keywords (aggregate keywords, attrs= / defaults=, plain keywords) in any order: rules 1 and 3
+    order = ["a"] * (len(agg_a) if agg_a is not None else fa == "kw") + \
+            ["d"] * (len(agg_d) if agg_d is not None else fd == "kw") + ["k"] * nkw
+    if rnd.random() < 0.4:
+        rnd.shuffle(order)
 
     def strict(n):
-        return 0 if not unrep else 2 if n in kw_used else 1
+        return 0 if not unrep else 2 if n in kw_used or n in joined else 1
     events: List[Dict[str, Any]] = []
     tpl = None
     src0 = None
@@ -674,12 +747,15 @@ def record_attrs_trace(rnd: random.Random, tid: int) -> Dict[str, Any]:
             if prev_case is not None and rnd.random() < 0.5:
                 return prev_case[key]                     # unchanged -> same object again
             if agg is not None:
-                return [{"n": n, "v": _rand_value(rnd, strict=strict(n))} for n in agg]
+                return [{"n": n, "v": lit if lit is not None else _rand_value(rnd, n in joined, strict=strict(n))}
+                        for n, via, lit in agg]
             return _rand_dict(rnd, names, 4, strict)
         case = {"defaults": gen(fd, agg_d, "defaults"), "attrs": gen(fa, agg_a, "attrs"),
                 "kws": [{"n": n, "v": lit if lit is not None else _rand_value(rnd, True, strict=2 if unrep else 0)}
                         for n, via, lit in kws_shape],
-                "vias": [via for _, via, _ in kws_shape], "fa": fa, "fd": fd}
+                "vias": [via for _, via, _ in kws_shape], "fa": fa, "fd": fd,
+                "avias": [via for _, via, _ in agg_a or []], "dvias": [via for _, via, _ in agg_d or []],
+                "order": order}
         src, ctx = materialize_attrs(case)
         if tpl is None:
             src0 = src
@@ -703,7 +779,8 @@ def record_attrs_trace(rnd: random.Random, tid: int) -> Dict[str, Any]:
                        "obs": {f: obs[f] for f in _OBS_FIELDS}})
         prev_ctx, prev_case = ctx, case
     return {"id": tid, "kind": "attrs", "events": events, "src": src0, "fa": fa, "fd": fd, "route": route,
-            "vias": [via for _, via, _ in kws_shape]}
+            "vias": [via for _, via, _ in kws_shape], "avias": [via for _, via, _ in agg_a or []],
+            "dvias": [via for _, via, _ in agg_d or []], "order": order}
 
 
 _TEXT_BITS = ["a", "b c", "é", "中", " & ", "\"q\"", "'s'", "&amp;", "&lt;", "1 &gt; 0", " ", "x=y;", "&#39;"]
@@ -747,16 +824,36 @@ _G_BITS = ["</", "</", "<", "/", "script", "SCRIPT", "sCrIpT", "Script", "style"
            ">", ">", " ", "\n", "\t", "x", "=", "\"", "'", "-", "a();", "{}", "/>", "é", "scr", "ipt", "<\\/"]
 
 
-def record_guard_trace(rnd: random.Random, tid: int) -> Dict[str, Any]:
-    kind = rnd.choice(["js", "css"])
+def _rand_guard_content(rnd: random.Random) -> str:
     while True:
         s = ("M1" + rnd.choice(["", " ", ";"]) + "".join(rnd.choice(_G_BITS) for _ in range(rnd.randint(0, 12))) +
              rnd.choice(["", "Z()", ";"])).strip()
         if "<!--" not in s:
-            break
-    obs = observe_guard(kind, s)
-    return {"id": tid, "kind": "guard", "gkind": kind, "s": s, "outcome": obs["outcome"], "rest": obs["rest"],
-            "exc": obs["exc"]}
+            return s
+
+
+def _play_guard_history(comps: List[Tuple[str, str]], plan: List[int]) -> List[Dict[str, Any]]:
+    """Render the component classes (one fresh class per entry of comps) in the order of `plan`."""
+    classes = [_guard_class(kind, s) for kind, s in comps]
+    events = []
+    for c in plan:
+        kind, s = comps[c]
+        obs = _render_guard(classes[c], kind, s)
+        events.append({"c": c, "gkind": kind, "s": s, "outcome": obs["outcome"], "rest": obs["rest"], "exc": obs["exc"]})
+    return events
+
+
+def record_guard_trace(rnd: random.Random, tid: int) -> Dict[str, Any]:
+    """A history in one process: one component class rendered 1-3 times, in a third of the traces interleaved
+    with the renders of a second class (other content, or - another class - the very same content)."""
+    comps = [(rnd.choice(["js", "css"]), _rand_guard_content(rnd))]
+    plan = [0] * rnd.choice([1, 2, 2, 3])
+    if rnd.random() < 0.35:
+        comps.append(comps[0] if rnd.random() < 0.3 else (rnd.choice(["js", "css"]), _rand_guard_content(rnd)))
+        plan += [1] * rnd.choice([1, 2])
+        rnd.shuffle(plan)
+    return {"id": tid, "kind": "guard", "comps": [list(c) for c in comps], "plan": plan,
+            "events": _play_guard_history(comps, plan)}
 
 
 def record_traces(seed: int, n_attrs: int, n_slots: int, n_guard: int) -> List[Dict[str, Any]]:
@@ -770,7 +867,7 @@ def record_traces(seed: int, n_attrs: int, n_slots: int, n_guard: int) -> List[D
 
 
 _TRACE_FIELDS = {"attrs": ("id", "kind", "events"), "slot": ("id", "kind", "origin", "content", "hops", "out", "err"),
-                 "guard": ("id", "kind", "gkind", "s", "outcome", "rest")}
+                 "guard": ("id", "kind", "events")}
 
 
 def judge_traces_with_tlc(traces: List[Dict[str, Any]], batch: int = 1500, parallel: int = 3) -> Dict[str, Any]:
@@ -816,39 +913,48 @@ def validate_traces(chk: Check, traces: List[Dict[str, Any]]) -> None:
         key = m.group(1) if m and why["clauses"].count('"') == 2 else None
         if t["kind"] == "attrs":
             case = {"kind": "html_attrs_trace", "template": t["src"], "fa": t["fa"], "fd": t["fd"], "vias": t["vias"],
+                    "avias": t["avias"], "dvias": t["dvias"], "order": t["order"],
                     "route": t["route"], "events": t["events"][: why["event"]]}
         else:
             case = {k: v for k, v in t.items() if k != "id"}
             case["kind"] = t["kind"] + "_trace"
+            if t["kind"] == "guard":
+                case["plan"] = t["plan"][: why["event"]]
+                case["events"] = t["events"][: why["event"]]
         chk.violation(case, {"tlc": why}, key=key)
     for t in traces:
-        chk.count([t.get("src"), t.get("events"), t.get("origin"), t.get("content"), t.get("hops"), t.get("s"),
-                   t.get("gkind")], True)
+        chk.count([t.get("src"), t.get("events"), t.get("origin"), t.get("content"), t.get("hops")], True)
     chk.add("traces_validated_against_impl", len(traces))
-    chk.add("trace_events", sum(len(t["events"]) if t["kind"] == "attrs" else 1 for t in traces))
+    chk.add("trace_events", sum(len(t["events"]) if "events" in t else 1 for t in traces))
+    chk.add("guard_histories_with_repeated_render",
+            sum(1 for t in traces if t["kind"] == "guard" and len(set(t["plan"])) < len(t["plan"])))
     chk.add("trace_states", res["states"])
     chk.add("parser_model_drift", len(res["drift"]))
     for kind in ("attrs", "slot", "guard"):
         ts = [t for t in traces if t["kind"] == kind]
         if ts:
             t = ts[len(ts) // 2]
+            if kind == "guard":
+                t = dict(t, events=[{k: v for k, v in e.items() if k != "rest"} for e in t["events"]])
             chk.sample({"trace_" + kind: {k: v for k, v in t.items() if k not in ("id", "rest")}}, limit=9)
 
 
 # ====================================================================== entry points
 _RULE = ("spec->code: every state of the bounded TLC instances is a case (html_attrs: one name x all value "
          "representatives x <=MaxKw keywords; 2-3 names x every writing form; odd attribute names.  slots: origin x "
-         "hop chain x content.  js/css: prefix x open x letter-case pattern x tail) and is replayed on the real "
+         "hop chain x content.  js/css: prefix x open x letter-case pattern x tail, each rendered 3 times in one "
+         "process; html_attrs aggrep: aggregate keywords with a prefix:key repeated <= 3 times x var/literal/spread) "
+         "and is replayed on the real "
          "library; code->spec: seeded random deeper runs judged by TLC (Trace_C13).  Non-trivial: html_attrs cases "
-         "with a keyword, an override or a non-exact name; all slot cases; js/css contents containing '<'.  "
+         "with a keyword, an override, a repeated aggregate key or a non-exact name; all slot cases; js/css contents containing '<'.  "
          "Distinct by hash of the abstract case.")
 _ASSUME = [
     "html.parser (Python stdlib) stands for 'an HTML parser' for start tags; for <script>/<style> content the "
     "tokenizer of specs/EndTagGuard.tla is used (html.parser 3.12 does not follow the standard there)",
     "attribute names are lower-case; safe strings contain no raw double quote; template literals only without "
     "special characters",
-    "appending to/with None/True/False, repeated attrs:k= aggregates, dynamic expressions and filters inside "
-    "html_attrs are unspecified and admitted/not generated",
+    "appending to/with None/True/False (also via a repeated aggregate keyword), dynamic expressions and filters "
+    "inside html_attrs are unspecified and admitted/not generated",
     "a template fill handed on from Python (fill hop followed by render/dynamic hop) is not generated: it raises "
     "RecursionError on the current tree (slot resolution, not escaping)",
     "raw (unescaped) slot contents are well-formed HTML fragments; generated JS/CSS never contains '<!--' or outer "
@@ -890,7 +996,8 @@ def _trace_of_case(case: Dict[str, Any]) -> Dict[str, Any]:
     if k == "html_attrs_trace":
         events, tpl, prev = [], None, {}
         for e in case["events"]:
-            c = dict(e, fa=case["fa"], fd=case["fd"], vias=case["vias"])
+            c = dict(e, fa=case["fa"], fd=case["fd"], vias=case["vias"], avias=case.get("avias"),
+                     dvias=case.get("dvias"), order=case.get("order"))
             src, ctx = materialize_attrs(c)
             route = case.get("route", "template")
             tpl = tpl or (Template(src) if route == "template" else _ComponentHosted(src) if route == "component"
@@ -908,11 +1015,15 @@ def _trace_of_case(case: Dict[str, Any]) -> Dict[str, Any]:
         obs = observe_slot(origin, case["content"], case["hops"])
         return {"id": 1, "kind": "slot", "origin": origin, "content": case["content"], "hops": case["hops"],
                 "out": obs["out"], "err": obs["err"]}
-    if k in ("guard", "guard_trace"):
-        gk = case.get("component_attr") or case["gkind"]
-        s = case.get("content") if k == "guard" else case["s"]
-        obs = observe_guard(gk, s)
-        return {"id": 1, "kind": "guard", "gkind": gk, "s": s, "outcome": obs["outcome"], "rest": obs["rest"]}
+    if k == "guard":
+        comps, plan = [(case["component_attr"], case["content"])], [0] * case.get("renders", 1)
+        return {"id": 1, "kind": "guard", "comps": comps, "plan": plan, "events": _play_guard_history(comps, plan)}
+    if k == "guard_trace":
+        if "plan" in case:
+            comps, plan = [tuple(c) for c in case["comps"]], case["plan"]
+        else:                                           # stored before histories were recorded: one render
+            comps, plan = [(case["gkind"], case["s"])], [0]
+        return {"id": 1, "kind": "guard", "comps": comps, "plan": plan, "events": _play_guard_history(comps, plan)}
     raise MachineryError(f"unknown case kind {k}")
 
 
@@ -1018,6 +1129,12 @@ def selftest(tier: str) -> int:
                 seen[p.key] = p
         return [p for p in params if p.key is None or seen[p.key] is p]
 
+    def merge_plain_only(params):
+        # only plain keywords are merged; a repeated attrs:k / defaults:k reaches the aggregation unmerged (last wins)
+        agg = [p for p in params if p.key is not None and ":" in p.key and p.key.split(":")[0] in ("attrs", "defaults")]
+        out = tt_orig_merge([p for p in params if not any(p is a for a in agg)])
+        return out + agg
+
     attrs_probes = [
         ("attrs:defaults-override-attrs", lambda: patch((da.HtmlAttrsNode, "render", node_render(m_swapped)))),
         ("attrs:keyword-replaces-instead-of-appending", lambda: patch((da.HtmlAttrsNode, "render", node_render(m_replace)))),
@@ -1042,6 +1159,7 @@ def selftest(tier: str) -> int:
             std_skip, lambda v: False, std_fmt)))),
         ("attrs:repeated-keywords-joined-right-to-left", lambda: patch((tt, "merge_repeated_kwargs", merge_reversed))),
         ("attrs:repeated-keyword-last-wins", lambda: patch((tt, "merge_repeated_kwargs", merge_last_wins))),
+        ("attrs:repeated-aggregate-keyword-last-wins", lambda: patch((tt, "merge_repeated_kwargs", merge_plain_only))),
     ]
 
     # ---- slots
@@ -1092,7 +1210,20 @@ def selftest(tier: str) -> int:
                 raise RuntimeError("refused")
             return f"<{tag}>{content}</{tag}>"
         return w
+    def wrap_memo(tag):
+        seen = set()
+
+        def w(comp_cls, content):
+            # "scan every script only once": the scan is skipped at later renders, whatever it found
+            if (tag, content) not in seen:
+                seen.add((tag, content))
+                if f"</{tag}" in content.lower():
+                    raise RuntimeError("refused")
+            return f"<{tag}>{content}</{tag}>"
+        return w
     guard_probes = [
+        ("guard:only-at-the-first-render-of-a-script", lambda: patch((dd, "wrap_component_js", wrap_memo("script")),
+                                                                     (dd, "wrap_component_css", wrap_memo("style")))),
         ("guard:removed", lambda: patch((dd, "wrap_component_js", wrap("script", None)),
                                         (dd, "wrap_component_css", wrap("style", None)))),
         ("guard:needs-closing-bracket", lambda: patch((dd, "wrap_component_js", wrap("script", lambda c: "</script>" in c)),
